@@ -21,6 +21,14 @@ def run_witness(w):
         if not ok:
             return False, dict(error="stylua binary does not build: " + err[-500:])
         return cli_witness.run_witness(w)
+    if w.get("kind") == "ignorefile":
+        fails, _ = run_corpus_ignore([w.get("opts") or {}], thorough=True, only=w["file"])
+        hit = [f for f in fails if f["case"] == w["case"]]
+        return bool(hit), dict(violated=bool(hit), detail=(hit[0]["detail"] if hit else ""), failures=hit)
+    if w.get("kind") == "rangefile":
+        fails, _ = run_corpus_range([w.get("opts") or {}], thorough=True, only=w["file"])
+        hit = [f for f in fails if f["range"] == w["range"]]
+        return bool(hit), dict(violated=bool(hit), detail=(hit[0]["detail"] if hit else ""), failures=hit)
     if w.get("kind") == "corpusfile":
         fails, _ = run_corpus([w.get("opts") or {}], [w["column_width"]], only=w["file"])
         hit = [f for f in fails if f["kind"] == w["fkind"]]
@@ -98,6 +106,61 @@ def run_corpus(configs, widths, only=None):
     _corpus_cache[key] = (fails, stats)
     return fails, stats
 
+def run_corpus_range(configs, thorough=False, only=None):
+    """C09 sweep: every statement of the repository's test inputs as the formatting range (replay `corpus-range` mode).
+    returns (failures, stats); a failure is dict(file (relative), range, kind, detail, opts)"""
+    key = "range:" + json.dumps([configs, thorough, only], sort_keys=True)
+    if key in _corpus_cache: return _corpus_cache[key]
+    repo = os.environ.get("VX_REPO", "/repo")
+    fails, stats = [], dict(files=0, runs=0, configs=len(configs))
+    with tempfile.TemporaryDirectory(prefix="vxr", dir=os.path.join(ROOT, ".build")) as d:
+        lst = os.path.join(d, "corpus.lst")
+        open(lst, "w").write("\n".join(corpus_list(only)) + "\n")
+        for opts in configs:
+            args = [BIN, "corpus-range", lst] + [f"{k}={v}" for k, v in opts.items()] + (["max_nested=100000000"] if thorough else [])
+            try:
+                p = subprocess.run(args, capture_output=True, text=True, timeout=CORPUS_TIME_LIMIT * (4 if thorough else 1))
+            except subprocess.TimeoutExpired:
+                fails.append(dict(file="tests", range=[0, 0], kind="timeout", opts=opts, detail=f"the range sweep under {opts} did not finish in time")); continue
+            try:
+                j = json.loads(p.stdout)
+            except Exception:
+                raise RuntimeError("range sweep produced no result: " + (p.stderr or p.stdout)[-500:])
+            stats["files"] = j["files"]; stats["runs"] += j["runs"]
+            for f in j["failures"]:
+                f["file"] = os.path.relpath(f["file"], repo); f["opts"] = opts
+                fails.append(f)
+    _corpus_cache[key] = (fails, stats)
+    return fails, stats
+
+def run_corpus_ignore(configs, thorough=False, only=None):
+    """C08 sweep (replay `corpus-ignore` mode): `-- stylua: ignore` above every statement / an ignore region around every pair of
+    neighbouring top-level statements of the repository's test inputs; the ignored source text must appear verbatim in the output"""
+    key = "ignore:" + json.dumps([configs, thorough, only], sort_keys=True)
+    if key in _corpus_cache: return _corpus_cache[key]
+    repo = os.environ.get("VX_REPO", "/repo")
+    fails, stats = [], dict(files=0, runs=0, configs=len(configs))
+    with tempfile.TemporaryDirectory(prefix="vxi", dir=os.path.join(ROOT, ".build")) as d:
+        lst = os.path.join(d, "corpus.lst")
+        open(lst, "w").write("\n".join(corpus_list(only)) + "\n")
+        for ci, opts in enumerate(configs):
+            full = thorough and ci == 0
+            args = [BIN, "corpus-ignore", lst] + [f"{k}={v}" for k, v in opts.items()] + (["max_nested=100000000", "max_file=100000000"] if full else [])
+            try:
+                p = subprocess.run(args, capture_output=True, text=True, timeout=CORPUS_TIME_LIMIT * (6 if full else 1))
+            except subprocess.TimeoutExpired:
+                fails.append(dict(file="tests", case="-", kind="timeout", opts=opts, detail=f"the ignore sweep under {opts} did not finish in time")); continue
+            try:
+                j = json.loads(p.stdout)
+            except Exception:
+                raise RuntimeError("ignore sweep produced no result: " + (p.stderr or p.stdout)[-500:])
+            stats["files"] = max(stats["files"], j["files"]); stats["runs"] += j["runs"]
+            for f in j["failures"]:
+                f["file"] = os.path.relpath(f["file"], repo); f["opts"] = opts
+                fails.append(f)
+    _corpus_cache[key] = (fails, stats)
+    return fails, stats
+
 def witnesses_for(label, registry):
     if label.endswith(".total"):
         fn = label[:-6].split("::")[-1]
@@ -130,6 +193,8 @@ def make_replay(prop, failure, registry):
         sc = failure["scenario"]
         rec["failing_input"] = dict(kind=sc.get("kind"), scenario=sc.get("scenario"), src=sc.get("src"), opts=sc.get("opts"), range=sc.get("range"), contains=sc.get("contains"), oracle=sc.get("oracle"), result=failure.get("scenario_result"),
                                     file=sc.get("file"), column_width=sc.get("column_width"), fkind=sc.get("fkind"))
+        if sc.get("kind") == "rangefile": rec["failing_input"]["range"] = sc.get("range")
+        if sc.get("kind") == "ignorefile": rec["failing_input"]["case"] = sc.get("case")
         last_found_input = True
         json.dump(rec, open(path, "w"), indent=1)
         return path
@@ -169,7 +234,7 @@ def rerun(path):
     if not ok:
         print("cannot build replay crate:", err); return 2
     v, j = run_witness(dict(src=fi.get("src"), kind=fi.get("kind"), scenario=fi.get("scenario"), opts=fi.get("opts"), range=fi.get("range"), oracle=fi.get("oracle"), contains=fi.get("contains"),
-                            file=fi.get("file"), column_width=fi.get("column_width"), fkind=fi.get("fkind")))
+                            file=fi.get("file"), column_width=fi.get("column_width"), fkind=fi.get("fkind"), case=fi.get("case")))
     print(json.dumps(j, indent=1)[:4000])
     print("REPRODUCED" if v else "not reproduced on the current tree")
     return 1 if v else 0
